@@ -540,6 +540,34 @@ theorem fact_offloading_header_checks :
     Facts.C15.offloadHeaderCountCheck = "len(values) != 1" ∧ Facts.C15.offloadCertificateCountCheck = "len(certificates) != 1" ∧
     Facts.C15.offloadValueIndex = ["0", "0"] := by decide
 
+/-- **several streams on one connection (TLS offloading behind a multiplexing proxy)**: whatever the shared `*peer.Peer` of the
+    connection holds when a stream arrives (nothing, the certificate of an earlier stream, anything), the certificate the
+    stream's handler authenticates with is the one in THIS stream's single header value, or the stream is refused -/
+theorem offloaded_identity_is_this_streams_header (shared : Option String) (vals : List HeaderVal) :
+    (interceptStream shared vals).2 = offloadedCertificate vals := by
+  unfold interceptStream
+  cases offloadedCertificate vals <;> rfl
+
+/-- for the whole history of streams of a connection: stream i sees exactly the certificate of its own header — it is
+    independent of the earlier streams and of the initial peer info -/
+theorem offloaded_streams_independent (shared : Option String) (streams : List (List HeaderVal)) :
+    interceptStreams shared streams = streams.map offloadedCertificate := by
+  induction streams generalizing shared with
+  | nil => rfl
+  | cons v rest ih =>
+    simp only [interceptStreams, List.map_cons]
+    rw [ih, offloaded_identity_is_this_streams_header]
+
+/-- in particular a stream whose header carries the attacker's certificate is never handled with the victim's, although the
+    victim's stream came first on the same connection -/
+example : interceptStreams none [[.cert "victim.example.org"], [.cert "attacker.example"]]
+    = [some "victim.example.org", some "attacker.example"] := by decide
+
+/-- regenerated: `intercept` assigns `peerInfo.AuthInfo` exactly once, as a top-level (unguarded) statement, from the
+    certificates parsed from this stream's header -/
+theorem fact_offloading_authinfo_overwritten :
+    Facts.C15.offloadAuthInfoAssignments = ["depth=0 guard=- PeerCertificates=certificates"] := by decide
+
 /-! ### non-vacuity: a node holding a private transaction for [A, B]; B (listed, authenticated) gets the payload,
     C (unlisted) and an unauthenticated B get the empty response; hypotheses of the theorems are met -/
 
